@@ -217,7 +217,8 @@ def get_query_argument(url, key):
         return None
 
     for q in safe_qsl_iter(o.query):
-        if key == q[0]:
+        # NOTE: add_query_argument quotes names, "k%26x" is the name "k&x"
+        if key == q[0] or key == unquote(q[0]):
             if q[1] is None:
                 return True
             return q[1]
